@@ -435,8 +435,35 @@ pub fn run_schedule<K: HKey>(
         }
     }
     drop(stats);
-    st.close();
-    drop(cas);
+    if !blocked && stuck.is_empty() {
+        // the log must tell the same story as the memory: close, reopen, compare
+        let before = snapshot(&cas, &u, &root, &names);
+        drop(cas);
+        st.close();
+        let res = st.open();
+        let mut idx = vec![json!("-"); NK];
+        let mut get = vec![json!("-"); NK];
+        if let Some(c2) = st.cas.as_ref() {
+            for (k, item) in c2.read_index_state().iter() {
+                let a = u.abs_of_key(k);
+                if a >= 1 {
+                    idx[a - 1] = json!(u.name_of_hash(item.blob_hash.as_bytes()));
+                }
+            }
+            for a in 1..=NK {
+                get[a - 1] = match c2.get(&u.key(a)) {
+                    Ok(Some(b)) => json!(u.name_of_bytes(&b)),
+                    Ok(None) => json!("-"),
+                    Err(e) => json!(format!("!{}", err_class(&e))),
+                };
+            }
+        }
+        events.push(json!({"ev": "final", "before": before, "res": res, "idx": idx, "get": get}));
+        st.close();
+    } else {
+        st.close();
+        drop(cas);
+    }
     RunResult { events, choices, blocked }
 }
 
